@@ -1,0 +1,13 @@
+//go:build verif
+
+// Contracts for package types, checked by /verif (govc). Comment-only file.
+package types
+
+// IsPrimitive inspects reflect.Kind, which is outside the modelled subset. The contract is stated on the
+// dynamic kinds the YAML decoder produces (nil, string, bool, int, other numeric kinds, []any, map[string]any)
+// and says nothing about other dynamic types.
+//@ func IsPrimitive pure
+//@   property C11 C02
+//@   trusted "switches on reflect.TypeOf(v).Kind(); 30 lines; cross-checked by the bounded conformance test of the thorough tier"
+//@   ensures [scalars] (isNilAny(v) || isStr(v) || isBool(v) || isInt(v) || isPrimKind(v)) ==> result
+//@   ensures [containers] (isList(v) || isDict(v)) ==> !result
